@@ -69,6 +69,10 @@ type Stepper struct {
 	uparams  *sipsp.URIParamsLst
 	uhdrs    *sipsp.URIHdrsLst
 	vno      int // values parsed, accumulated over calls (list wrappers return it per call)
+
+	// the arrays handed to the object at creation (to check that they are the ones being filled)
+	callerHdrs []sipsp.Hdr
+	callerCts  []sipsp.PFromBody
 }
 
 func mkHdrs(n int) []sipsp.Hdr {
@@ -91,7 +95,8 @@ func NewStepper(cfg Cfg) *Stepper {
 	switch cfg.Kind {
 	case KMsg:
 		s.msg = &sipsp.PSIPMsg{}
-		s.msg.Init(nil, mkHdrs(cfg.HdrCap), mkContacts(cfg.CtCap))
+		s.callerHdrs, s.callerCts = mkHdrs(cfg.HdrCap), mkContacts(cfg.CtCap)
+		s.msg.Init(nil, s.callerHdrs, s.callerCts)
 	case KFLine:
 		s.fl = &sipsp.PFLine{}
 	case KHdrLine:
